@@ -69,9 +69,56 @@ func (ip *Interp) numErrorSym(fn string, s Str, which string) Value {
 	return Iface{T: types.NewPointer(t), V: Ptr{C: c, O: ip.newObj(t, "NumError")}}
 }
 
+// formatFloatStub models strconv.AppendFloat/FormatFloat(x, 'f', prec) on a symbolic value by an
+// opaque WELL-FORMED numeral: the number of integer digits follows from the magnitude (forks on
+// |x| < 10^k), every digit is a fresh symbolic byte in '0'..'9' that is NOT linked to the value
+// (decimal conversion is the library's). A leading '-' is produced for negative values.
 func (ip *Interp) formatFloatStub(x *Term, fmtc byte, prec int) Str {
-	ip.unsupported("float formatting of symbolic value")
-	return Str{}
+	if fmtc != 'f' || prec < 0 || prec > 20 {
+		ip.unsupported("float formatting of symbolic value")
+	}
+	w := ip.W
+	tc := ip.TC
+	if ip.condT(tc.Or(tc.FIsNaN(x), tc.FIsInf(x))) {
+		ip.unsupported("float formatting of symbolic NaN/Inf")
+	}
+	ax := tc.FAbs(x)
+	digits := 0
+	p := 10.0
+	for k := 1; k <= 22; k++ {
+		if ip.condT(tc.FLt(ax, ConstF64(p))) {
+			digits = k
+			break
+		}
+		p *= 10
+	}
+	if digits == 0 {
+		ip.unsupported("float formatting of symbolic value >= 1e22")
+	}
+	var out []*Term
+	if ip.condT(tc.FLt(x, ConstF64(0))) {
+		out = append(out, Const(SBV8, '-'))
+	}
+	digit := func() *Term {
+		b := w.freshVar(SBV8)
+		w.inputs = append(w.inputs, Input{Kind: "aux", Vars: []*Term{b}})
+		w.addPC(tc.And(tc.ULe(Const(SBV8, '0'), b), tc.ULe(b, Const(SBV8, '9'))))
+		return b
+	}
+	for i := 0; i < digits; i++ {
+		d := digit()
+		if i == 0 && digits > 1 {
+			w.addPC(tc.Not(tc.Eq(d, Const(SBV8, '0')))) // no leading zero
+		}
+		out = append(out, d)
+	}
+	if prec > 0 {
+		out = append(out, Const(SBV8, '.'))
+		for i := 0; i < prec; i++ {
+			out = append(out, digit())
+		}
+	}
+	return Str{Sym: out}
 }
 
 // regexpCompileStub models regexp.Compile on a symbolic pattern.
